@@ -324,6 +324,32 @@ func ruleOPT8(c *Ctx) {
 		}
 	}
 	c.Check(okLen && okStore, "ArgumentList.Evaluate / i-th value stored at index i of a slice of len(Arguments)", p.Pos(fn.Pos()), "values[i] = Arguments[i].Evaluate()", "argument values are not stored position by position")
+	// every argument is evaluated: the loop over Arguments ends by exhaustion or by returning an error, and the store
+	// happens on every iteration that does not
+	okAllArgs, whyArgs := false, "no range loop over Arguments"
+	loopsA := naturalLoops(fn)
+	for _, l := range loopsA {
+		x := rangeOperand(l)
+		if x == nil {
+			continue
+		}
+		if f, _ := fieldLoad(x); f != argsF {
+			continue
+		}
+		okAllArgs, whyArgs = true, ""
+		for _, ex := range l.Exits() {
+			eb := ex[0].(*ssa.BasicBlock)
+			si := ex[1].(int)
+			if eb == l.Header {
+				continue
+			}
+			if !onlyErrorReturns(eb.Succs[si], loopsA) {
+				okAllArgs = false
+				whyArgs = "the loop over Arguments can be left early without an error (from block " + eb.Comment + "): later arguments are not evaluated and the callee gets zero values in their place"
+			}
+		}
+	}
+	c.Check(okAllArgs, "ArgumentList.Evaluate / every argument is evaluated unless one fails", p.Pos(fn.Pos()), "loop ends by exhaustion or an error return", whyArgs)
 	// the evaluated slice reaches CallFunction unchanged
 	atom := p.Method("ast", "ExpressionAtom", "Evaluate")
 	if atom == nil {
